@@ -52,13 +52,16 @@ class Worker:
             self.start()
             self.proc.stdin.write((json.dumps(job, separators=(",", ":")) + "\n").encode())
             self.proc.stdin.flush()
-        t_end = time.time() + deadline
+        t_start = time.time()
+        t_end = t_start + deadline
         fd = self.proc.stdout.fileno()
         while True:
             nl = self.buf.find(b"\n")
             if nl >= 0:
                 line, self.buf = self.buf[:nl], self.buf[nl + 1:]
-                return json.loads(line)
+                res = json.loads(line)
+                res["_wall"] = round(time.time() - t_start, 3)
+                return res
             left = t_end - time.time()
             if left <= 0:
                 self.kill()
